@@ -105,3 +105,18 @@ func c20Plural(n int, s string) string {
 	}
 	return fmt.Sprintf("%d %ss", n, s)
 }
+
+// c20PathText describes the assumptions of a path for a diagnostic: its facts and the conditions explored both ways.
+func c20PathText(st *c20St) string {
+	t := st.factText()
+	if len(st.notes) > 0 {
+		if t != "" {
+			t += "; "
+		}
+		t += "explored both ways: " + strings.Join(st.notes, ", ")
+	}
+	if t == "" {
+		t = "unconditionally"
+	}
+	return t
+}
